@@ -45,7 +45,8 @@ class CaseResult(object):
 
   def violate(self, kind, msg, facts=None, witness=None):
     self.violations.append({
-      'kind': kind, 'msg': msg, 'facts': facts or {}, 'witness': witness})
+      'kind': kind, 'msg': msg if len(msg) <= 3000 else msg[:1500] + ' ...[%d chars]... ' % (len(msg) - 3000) + msg[-1500:],
+      'facts': facts or {}, 'witness': witness})
 
 
 class BaseCheck(object):
